@@ -605,6 +605,7 @@ type replayData struct {
 func run(c *common.Ctx) *common.Result {
 	res := common.NewResult()
 	scs := scenarios(c.Thorough())
+	chainFamily(c, res, len(scs))
 	linCache := map[string]bool{}
 	for si, sc := range scs {
 		if !c.Mine(si) {
@@ -720,15 +721,44 @@ func coverage(c *common.Ctx, r *common.Result) map[string]interface{} {
 		"traces_validated_against_impl": r.Counts["histories_checked"],
 		"schedules":                     r.Counts["schedules"],
 		"scenarios":                     r.Counts["scenarios"],
+		"chain_scenarios":               r.Counts["chain_scenarios"],
 		"scenarios_all_interleavings":   r.Counts["scenarios_unbounded"],
 		"max_schedule_points":           r.GetMax("points"),
 		"max_distinct_histories":        r.GetMax("outcomes_per_scenario"),
 		"rule": "scenarios = 2 threads x 1 op, 3 threads x 1 op (all interleavings), 2 threads x 2 ops over the 6-operation mutating sub-alphabet (all interleavings); thorough adds 2 threads x 2 ops over the full alphabet and 3 threads x 2 ops over the mutating sub-alphabet, both with preemption bound 2; over 13 env operations on the shared child scope colliding on key a, from two initial bindings of a; " +
-			"states = distinct complete call/return histories (with results and a final read of both scopes) observed; transitions = scheduler steps (lock announcements/grants, thread starts) executed on the real env package; every distinct history is checked for linearizability against the sequential spec by brute force and by porcupine",
+			"plus the chain family: 21 operations applied to DIFFERENT scopes of one chain (root, a module, its child) in pairs (thorough: triples) under every interleaving, checked for deadlock, panic and the lockset invariant only; states = distinct complete call/return histories (with results and a final read of both scopes) observed; transitions = scheduler steps (lock announcements/grants, thread starts) executed on the real env package; every distinct history is checked for linearizability against the sequential spec by brute force and by porcupine",
 	}
 }
 
+func replayChain(path string) (int, bool) {
+	var cr chainReplay
+	if _, _, err := common.ReadReplay(path, &cr); err != nil || len(cr.Ops) == 0 {
+		return 0, false
+	}
+	var ops []int
+	for _, nm := range cr.Ops {
+		for i, o := range chainOps {
+			if o.Name == nm {
+				ops = append(ops, i)
+			}
+		}
+	}
+	r := &explore.Run{Prefix: cr.Choices}
+	verdict, blocked, lockset, panicked, _, trace := runChain(ops, r, true)
+	for _, st := range trace {
+		fmt.Printf("  T%d %s\n", st.Thread, st.What)
+	}
+	fmt.Printf("ops=%v verdict=%s blocked=%v lockset=%v panic=%q\n", cr.Ops, verdict, blocked, lockset, panicked)
+	if verdict != sched.OK || len(lockset) > 0 || panicked != "" {
+		return 1, true
+	}
+	return 0, true
+}
+
 func replay(c *common.Ctx, path string) int {
+	if rc, ok := replayChain(path); ok {
+		return rc
+	}
 	var rd replayData
 	if _, _, err := common.ReadReplay(path, &rd); err != nil {
 		fmt.Println("cannot read replay:", err)
